@@ -87,6 +87,9 @@ func (t *transaction) Get(key []byte, cb func(value []byte) error) error {
 
 func (t *transaction) Has(key []byte) (bool, error) {
 	err := t.Get(key, func(_ []byte) error { return nil })
+	if errors.Is(err, db.ErrKeyNotFound) {
+		return false, nil
+	}
 	return err == nil, err
 }
 
